@@ -67,6 +67,11 @@ func (rw *LegacyRewrite) normalize() (err error) {
 	// use it in matchDomainWildcard instead of using strings.ToLower
 	// everywhere.
 	rw.Domain = strings.ToLower(rw.Domain)
+	if len(rw.Domain) > 1 {
+		// The hosts that are looked up never have the trailing dot of the
+		// fully qualified form.
+		rw.Domain = strings.TrimSuffix(rw.Domain, ".")
+	}
 
 	switch rw.Answer {
 	case "AAAA":
